@@ -27,7 +27,8 @@ np.power(x, y) -> npow x y (Model.v: Rpower for x > 0, 0 otherwise), `x**n` with
 integer literal -> x ^ n, int literals -> integers, float literals -> the exact decimal written.
 Formula methods are assumed to act elementwise on arrays (validated by the enclosures of the check).
 """
-import ast, hashlib, textwrap
+import ast, hashlib, textwrap, copy
+import c18_normalize as N
 from fractions import Fraction
 from decimal import Decimal
 
@@ -109,7 +110,8 @@ def same_body(fn, template_src, what):
 
 
 class Formulas:
-    def __init__(self, cls):
+    def __init__(self, cls, consts=None):
+        self.consts = consts or {}          # module-level numeric constants: name -> expression
         self.methods = {}
         for st in cls.body:
             if isinstance(st, ast.FunctionDef):
@@ -193,6 +195,8 @@ class Formulas:
         if isinstance(e, ast.Name):
             if e.id in env:
                 return env[e.id]
+            if e.id in self.consts:
+                return self.expr(self.consts[e.id], {}, used, False)
             raise TranslationError('unknown name %s' % e.id, e)
         if _is_np(e, 'pi'):
             return 'PI'
@@ -485,8 +489,8 @@ def _clip_mode(st, arr):
 
 T_GETCONTRIB = '''
 def getStrengthContributions(self, rss, Ls, phase = 'all', selectedContributions=None):
-    r0Weak = R0WEAK
-    r0Strong = R0STRONG
+    r0Weak = Ls / np.sqrt(np.cos(self.psi / 2))
+    r0Strong = Ls
     weakContributions = []
     strongContributions = []
     contributionsList = []
@@ -502,88 +506,21 @@ def getStrengthContributions(self, rss, Ls, phase = 'all', selectedContributions
                     strongContributions.append(sfuncs[i](rss, Ls, r0Strong, 'all'))
                 contributionsList.append(ylabel[i])
     weakContributions = np.array(weakContributions)
-    CLIPW
+    weakContributions[CONDW] = 0
     strongContributions = np.array(strongContributions)
-    CLIPS
+    strongContributions[CONDS] = 0
     tauowo = np.array(self.orowan(rss, Ls))
-    CLIPO
+    tauowo[CONDO] = 0
     return weakContributions, strongContributions, tauowo, contributionsList
 '''
+HOLES = {'CONDW', 'CONDS', 'CONDO'}
 
-
-def translate_strength(src):
-    try:
-        mod = ast.parse(src)
-    except SyntaxError as e:
-        raise TranslationError('source does not parse: %s' % e)
-    cls = _find_class(mod, 'StrengthModel')
-    F = Formulas(cls)
-    for m in FORMULAS:
-        F.formula(m)
-    out = []
-    decl = []
-    for v in VAR_ORDER:
-        if v == 'T':
-            decl.append('Variable T : R -> R -> R.     (* self.T: the bound line-tension method *)')
-        else:
-            decl.append('Variable %s : R.' % cname(v))
-    out.append('Section StrengthGen.\n' + '\n'.join(decl))
-    out += F.out
-
-    # ---- getStrengthContributions ----------------------------------------------------------------
-    fn = F.methods.get('getStrengthContributions')
-    if fn is None:
-        raise TranslationError('getStrengthContributions not found')
-    body = strip_doc(fn.body)
-    tb = strip_doc(ast.parse(textwrap.dedent(T_GETCONTRIB)).body[0].body)
-    if len(body) != len(tb) or ast.dump(fn.args) != ast.dump(ast.parse(textwrap.dedent(T_GETCONTRIB)).body[0].args):
-        raise TranslationError('getStrengthContributions no longer has the shape the model mirrors', fn)
-    clips = {}
-    r0 = {}
-    for st, t in zip(body, tb):
-        if isinstance(t, ast.Expr) and isinstance(t.value, ast.Name) and t.value.id in ('CLIPW', 'CLIPS', 'CLIPO'):
-            arr = {'CLIPW': 'weakContributions', 'CLIPS': 'strongContributions', 'CLIPO': 'tauowo'}[t.value.id]
-            clips[t.value.id] = _clip_mode(st, arr)
-        elif isinstance(t, ast.Assign) and isinstance(t.value, ast.Name) and t.value.id in ('R0WEAK', 'R0STRONG'):
-            if not (isinstance(st, ast.Assign) and len(st.targets) == 1 and ast.dump(st.targets[0]) == ast.dump(t.targets[0])):
-                raise TranslationError('getStrengthContributions: expected assignment of %s' % t.targets[0].id, st)
-            used = set()
-            r0[t.value.id] = F.expr(st.value, {'Ls': 'Ls'}, used, False)
-        elif ast.dump(st) != ast.dump(t):
-            raise TranslationError('getStrengthContributions no longer has the shape the model mirrors', st)
-    out.append('(* getStrengthContributions: effective spacings handed to the weak / strong formulas *)\n'
-               'Definition r0Weak_gen (Ls : R) : R := %s.\nDefinition r0Strong_gen (Ls : R) : R := %s.' % (r0['R0WEAK'], r0['R0STRONG']))
-    out.append('End StrengthGen.')
-    out.append('(* getStrengthContributions: how the three result arrays are clipped *)\n'
-               'Definition clip_weak_gen : clipmode := %s.\nDefinition clip_strong_gen : clipmode := %s.\nDefinition clip_orowan_gen : clipmode := %s.'
-               % (clips['CLIPW'], clips['CLIPS'], clips['CLIPO']))
-
-    # ---- _getStrengthFunctions table ---------------------------------------------------------------
-    gf = F.methods.get('_getStrengthFunctions')
-    if gf is None:
-        raise TranslationError('_getStrengthFunctions not found')
-    gb = strip_doc(gf.body)
-    tab = {}
-    for st, nm in zip(gb[:4], T_GETFUNCS_HEAD):
-        ok = (isinstance(st, ast.Assign) and len(st.targets) == 1 and isinstance(st.targets[0], ast.Name) and st.targets[0].id == nm
-              and isinstance(st.value, ast.List))
-        if not ok:
-            raise TranslationError('_getStrengthFunctions: expected `%s = [...]`' % nm, st)
-        items = []
-        for el in st.value.elts:
-            if nm == 'labels':
-                if not (isinstance(el, ast.Constant) and isinstance(el.value, str)):
-                    raise TranslationError('_getStrengthFunctions: label is not a string', el)
-                items.append(el.value)
-            else:
-                if not _is_self_attr(el):
-                    raise TranslationError('_getStrengthFunctions: entry is not self.<name>', el)
-                items.append(el.attr)
-        tab[nm] = items
-    if len({len(v) for v in tab.values()}) != 1:
-        raise TranslationError('_getStrengthFunctions: lists of different lengths', gf)
-    rest = '''
+T_GETFUNCS = '''
 def _getStrengthFunctions(self, selectedContributions = None):
+    wfuncs = [self.coherencyWeak, self.modulusWeak, self.APBweak, self.SFEweak, self.interfacialWeak]
+    sfuncs = [self.coherencyStrong, self.modulusStrong, self.APBstrong, self.SFEstrong, self.interfacialStrong]
+    contributions = [self.coherencyEffect, self.modulusEffect, self.APBEffect, self.SFEffect, self.IFEffect]
+    labels = ['Coherency', 'Modulus', 'APB', 'SFE', 'Interfacial']
     if selectedContributions is None:
         return wfuncs, sfuncs, contributions, labels
     else:
@@ -598,22 +535,117 @@ def _getStrengthFunctions(self, selectedContributions = None):
                 labelsSub.append(labels[index])
         return wfuncsSub, sfuncsSub, contributionsSub, labelsSub
 '''
-    tr = strip_doc(ast.parse(textwrap.dedent(rest)).body[0].body)
-    if len(gb) != 4 + len(tr) or any(ast.dump(a) != ast.dump(b) for a, b in zip(gb[4:], tr)):
-        raise TranslationError('_getStrengthFunctions no longer has the shape the model mirrors', gf)
+
+S_TEMPLATES = None      # filled below (name -> template text), in the order the private attributes are numbered
+
+
+def shape_check(cls, templates, what):
+    """every method named in `templates` has the NORMAL FORM (harness/c18_normalize.py) of its frozen text.
+    Returns (normal forms of the source methods, bindings of the template holes)."""
+    info_s = N.ClassInfo(cls)
+    tcls = copy.deepcopy(cls)
+    tmeth = {}
+    for name, src in templates.items():
+        tmeth[name] = ast.parse(textwrap.dedent(src)).body[0]
+    tcls.body = [tmeth.get(st.name, st) if isinstance(st, ast.FunctionDef) else st for st in tcls.body]
+    tcls.body += [f for n, f in tmeth.items() if n not in info_s.methods]
+    info_t = N.ClassInfo(tcls)
+    order = list(templates)
+    pm_s, pm_t = N.private_attrs(info_s.methods, order), N.private_attrs(info_t.methods, order)
+    forms, binds = {}, {}
+    for name in order:
+        if name not in info_s.methods:
+            raise TranslationError('%s.%s not found' % (what, name))
+        fs, ft = info_s.methods[name], info_t.methods[name]
+        if ast.dump(fs.args) != ast.dump(ft.args) or [ast.dump(d) for d in fs.decorator_list] != [ast.dump(d) for d in ft.decorator_list]:
+            raise TranslationError('%s.%s: signature changed' % (what, name), fs)
+        try:
+            ns, nt = N.normal_form(fs, info_s, pm_s), N.normal_form(ft, info_t, pm_t)
+        except RecursionError:
+            raise TranslationError('%s.%s cannot be normalised' % (what, name), fs)
+        if not N.unify(ast.Module(body=nt.body, type_ignores=[]), ast.Module(body=ns.body, type_ignores=[]), HOLES, binds):
+            raise TranslationError('%s.%s no longer has the shape the model mirrors (its normal form differs from the frozen one)' % (what, name), fs)
+        forms[name] = ns
+    return forms, binds
+
+
+def _clip_of(e, what):
+    """np.where(C, 0.0, E) in normal form -> clip mode"""
+    ok = (N.np_call(e, 'where') and len(e.args) == 3 and isinstance(e.args[1], ast.Constant) and e.args[1].value == 0
+          and not isinstance(e.args[1].value, bool))
+    if not ok:
+        raise TranslationError('getStrengthContributions: %s is not clipped by a mask assignment / np.where' % what)
+    c, E = e.args[0], ast.unparse(e.args[2])
+    nonfin = ast.dump(ast.parse('~np.isfinite(%s)' % E).body[0].value)
+    negnonfin = ast.dump(ast.parse('(%s < 0) | ~np.isfinite(%s)' % (E, E)).body[0].value)
+    if ast.dump(c) == negnonfin:
+        return 'ClipNegNonfinite'
+    if ast.dump(c) == nonfin:
+        return 'ClipNonfinite'
+    raise TranslationError('getStrengthContributions: unsupported clipping condition on %s' % what)
+
+
+def translate_strength(src):
+    try:
+        mod = ast.parse(src)
+    except SyntaxError as e:
+        raise TranslationError('source does not parse: %s' % e)
+    cls = _find_class(mod, 'StrengthModel')
+    consts = {st.targets[0].id: st.value for st in mod.body
+              if isinstance(st, ast.Assign) and len(st.targets) == 1 and isinstance(st.targets[0], ast.Name)}
+    F = Formulas(cls, consts)
+    for m in FORMULAS:
+        F.formula(m)
+    out = []
+    decl = []
+    for v in VAR_ORDER:
+        if v == 'T':
+            decl.append('Variable T : R -> R -> R.     (* self.T: the bound line-tension method *)')
+        else:
+            decl.append('Variable %s : R.' % cname(v))
+    out.append('Section StrengthGen.\n' + '\n'.join(decl))
+    out += F.out
+
+    # ---- structural methods: normal form of the source = normal form of the frozen text ---------------
+    templates = {'_getStrengthFunctions': T_GETFUNCS, 'getStrengthContributions': T_GETCONTRIB, 'combineStrengthContributions': T_COMBINE,
+                 'precStrength': T_PREC, 'totalStrength': T_TOTAL, 'ssStrength': T_SS, 'rssterm': T_RSS, 'Lsterm': T_LS,
+                 'updateCoupledModel': T_SUPD}
+    forms, binds = shape_check(cls, templates, 'StrengthModel')
+    # effective spacings: third argument of the weak / strong formula calls in the normal form
+    gsc = forms['getStrengthContributions']
+    calls = [n for n in ast.walk(gsc) if isinstance(n, ast.Call) and isinstance(n.func, ast.Attribute) and n.func.attr == 'append'
+             and n.args and isinstance(n.args[0], ast.Call) and len(n.args[0].args) == 4]
+    if len(calls) != 2:
+        raise TranslationError('getStrengthContributions: weak / strong formula calls not found', F.methods['getStrengthContributions'])
+    r0 = []
+    for c in calls:
+        e = c.args[0].args[2]
+        if isinstance(e, ast.Name) and e.id.startswith('_v'):
+            defs = [st.value for st in gsc.body if isinstance(st, ast.Assign) and len(st.targets) == 1 and isinstance(st.targets[0], ast.Name) and st.targets[0].id == e.id]
+            if len(defs) != 1:
+                raise TranslationError('getStrengthContributions: effective spacing is not a single assignment', F.methods['getStrengthContributions'])
+            e = defs[0]
+        r0.append(F.expr(e, {'Ls': 'Ls'}, set(), False))
+    ret = gsc.body[-1]
+    if not (isinstance(ret, ast.Return) and isinstance(ret.value, ast.Tuple) and len(ret.value.elts) == 4):
+        raise TranslationError('getStrengthContributions: unexpected result', F.methods['getStrengthContributions'])
+    clips = {'CLIPW': _clip_of(ret.value.elts[0], 'the weak contributions'), 'CLIPS': _clip_of(ret.value.elts[1], 'the strong contributions'),
+             'CLIPO': _clip_of(ret.value.elts[2], 'the Orowan contribution')}
+    out.append('(* getStrengthContributions: effective spacings handed to the weak / strong formulas *)\n'
+               'Definition r0Weak_gen (Ls : R) : R := %s.\nDefinition r0Strong_gen (Ls : R) : R := %s.' % (r0[0], r0[1]))
+    out.append('End StrengthGen.')
+    out.append('(* getStrengthContributions: how the three result arrays are clipped *)\n'
+               'Definition clip_weak_gen : clipmode := %s.\nDefinition clip_strong_gen : clipmode := %s.\nDefinition clip_orowan_gen : clipmode := %s.'
+               % (clips['CLIPW'], clips['CLIPS'], clips['CLIPO']))
+    # the table of _getStrengthFunctions is the frozen one (its normal form was just compared with T_GETFUNCS)
+    tf = ast.parse(textwrap.dedent(T_GETFUNCS)).body[0]
+    tab = {}
+    for st, nm in zip(tf.body[:4], T_GETFUNCS_HEAD):
+        tab[nm] = [el.value if isinstance(el, ast.Constant) else el.attr for el in st.value.elts]
     rows = ['("%s", "%s", "%s", "%s")' % r for r in zip(tab['wfuncs'], tab['sfuncs'], tab['contributions'], tab['labels'])]
     out.append('(* _getStrengthFunctions: (weak method, strong method, enabling dictionary, label) *)\n'
                'Definition strength_functions_gen : list (string * string * string * string) :=\n  [%s]%%string.' % ';\n   '.join(rows))
-
-    # ---- frozen shapes ------------------------------------------------------------------------------
-    for name, tmpl, gen in (('combineStrengthContributions', T_COMBINE, G_COMBINE), ('precStrength', T_PREC, G_PREC),
-                            ('totalStrength', T_TOTAL, G_TOTAL), ('ssStrength', T_SS, None), ('rssterm', T_RSS, None),
-                            ('Lsterm', T_LS, G_RSS), ('updateCoupledModel', T_SUPD, G_SUPD)):
-        if name not in F.methods:
-            raise TranslationError('%s not found' % name)
-        same_body(F.methods[name], tmpl, 'StrengthModel.' + name)
-        if gen:
-            out.append(gen)
+    out += [G_COMBINE, G_PREC, G_TOTAL, G_RSS, G_SUPD]
     names = [F.done[m][0] for m in FORMULAS] + ['r0Weak_gen', 'r0Strong_gen', 'clip_weak_gen', 'clip_strong_gen', 'clip_orowan_gen',
                                                  'strength_functions_gen', 'tausum_gen', 'taumin_gen', 'combine_gen', 'compare_gen',
                                                  'mix_gen', 'total_gen', 'rssterm_gen', 'Lsterm_gen', 'supdate_gen']
@@ -629,10 +661,7 @@ def translate_graingrowth(src):
     if [ast.dump(b) for b in cls.bases] != [ast.dump(ast.parse('GenericModel').body[0].value)]:
         raise TranslationError('GrainGrowthModel no longer derives from GenericModel only', cls)
     meths = {st.name: st for st in cls.body if isinstance(st, ast.FunctionDef)}
-    for name, tmpl in T_GG.items():
-        if name not in meths:
-            raise TranslationError('GrainGrowthModel.%s not found' % name)
-        same_body(meths[name], tmpl, 'GrainGrowthModel.' + name)
+    shape_check(cls, T_GG, 'GrainGrowthModel')
     # solve / setTimeInfo / updateCoupledModels must be the inherited ones
     for inherited in ('solve', 'setTimeInfo', 'updateCoupledModels', 'addCouplingModel', 'flattenX', 'unflattenX'):
         if inherited in meths:
@@ -677,11 +706,7 @@ def translate_generic(src):
     except SyntaxError as e:
         raise TranslationError('source does not parse: %s' % e)
     cls = _find_class(mod, 'GenericModel')
-    meths = {st.name: st for st in cls.body if isinstance(st, ast.FunctionDef)}
-    for name, tmpl in T_GENERIC.items():
-        if name not in meths:
-            raise TranslationError('GenericModel.%s not found' % name)
-        same_body(meths[name], tmpl, 'GenericModel.' + name)
+    shape_check(cls, T_GENERIC, 'GenericModel')
     return ['(* GenericModel.solve / setTimeInfo: the callee of GrainGrowthModel.updateCoupledModel (defaults of the call) *)\n'
             'Definition solve_minDtFrac_gen : R := %s.\nDefinition solve_maxDtFrac_gen : R := 1.' % _num(1e-8, None)], ['solve_minDtFrac_gen', 'solve_maxDtFrac_gen']
 
